@@ -144,6 +144,42 @@ Section TakeProof.
   Ltac next_cases b th :=
     let E := fresh "E" in destruct (next_pc b th) as [E|E]; rewrite E.
 
+  (** the holder of the last ticket sets the flag, stops the upstream and completes the sink *)
+  Lemma inv_end_now s t :
+    inv s -> is_hpc (pc s t) = true -> tks_end s = false -> inv (tk_end_now s t (tks_th s t)).
+  Proof.
+    intros I Hht Ee. unfold tk_end_now.
+    set (s' := tk_set _ _ _).
+    assert (Ho : forall t0, t0 <> t -> pc s' t0 = pc s t0).
+    { intros t0 ne. unfold s'. rewrite pc_other by exact ne. reflexivity. }
+    assert (Hs : pc s' t = TkInTerm).
+    { unfold s'. rewrite pc_same. reflexivity. }
+    assert (Hh : forall t0, is_hpc (pc s' t0) = true -> t0 = t).
+    { intros t0 H. destruct (Nat.eq_dec t0 t) as [|ne]; [assumption|].
+      rewrite Ho in H by exact ne. exact (i_huniq I _ _ H Hht). }
+    destruct I. constructor.
+    + change (tks_taken s = count is_begin_data ((t, TBegin DT) :: (t, TUp 0 UT) :: tks_tr s)).
+      rewrite !count_cons. cbn -[count]. exact i_taken0.
+    + exact i_le0.
+    + intros t0 _. exact (i_hmax0 _ Hht).
+    + intros t1 t2 H1 H2. apply Hh in H1, H2. congruence.
+    + change (count is_up_term ((t, TBegin DT) :: (t, TUp 0 UT) :: tks_tr s) = 1).
+      rewrite !count_cons. cbn -[count]. transitivity (S (b2n (tks_end s))); [f_equal; exact i_up0 | now rewrite Ee].
+    + change (count is_begin_term ((t, TBegin DT) :: (t, TUp 0 UT) :: tks_tr s) = 1).
+      rewrite !count_cons. cbn -[count]. transitivity (S (b2n (tks_end s))); [f_equal; exact i_bt0 | now rewrite Ee].
+    + reflexivity.
+    + intros _ _. left. reflexivity.
+    + intros t0 _. reflexivity.
+    + intros t0 H. exfalso. destruct (Nat.eq_dec t0 t) as [->|ne]; [congruence|].
+      rewrite Ho in H by exact ne.
+      assert (E : is_hpc (pc s t0) = true) by (rewrite H; reflexivity).
+      exact (ne (i_huniq0 _ _ E Hht)).
+    + intros t0. destruct (Nat.eq_dec t0 t) as [->|ne]; [congruence|].
+      rewrite Ho by exact ne. eauto.
+    + change (existsb is_panic ((t, TBegin DT) :: (t, TUp 0 UT) :: tks_tr s) = false).
+      cbn. assumption.
+  Qed.
+
   Lemma inv_step s t : inv s -> inv (tk_step true max s t).
   Proof.
     intros I. unfold tk_step.
@@ -197,42 +233,12 @@ Section TakeProof.
         now rewrite Nat.eqb_refl.
       + frame I t; rewrite ?Epc; next_cases (tks_stopped s) (tks_th s t); cbn; auto; try discriminate.
         all: apply Nat.eqb_neq in Hne; rewrite Hne; discriminate.
-    - (* TkAtEndLoad *)
+    - (* TkAtEndLoad: [end.swap(true)] - whoever finds the flag unset completes the sink *)
       destruct (tks_end s) eqn:Ee.
       + frame I t; rewrite ?Epc; next_cases (tks_stopped s) (tks_th s t); cbn; auto; discriminate.
-      + frame I t; rewrite ?Epc; cbn; auto; discriminate.
-    - (* TkAtEndStore: the holder of the last ticket completes the sink *)
-      pose proof (i_store I _ Epc) as Ee.
-      assert (Hht : is_hpc (pc s t) = true) by (rewrite Epc; reflexivity).
-      set (s' := tk_set _ _ _).
-      assert (Ho : forall t0, t0 <> t -> pc s' t0 = pc s t0).
-      { intros t0 ne. unfold s'. rewrite pc_other by exact ne. reflexivity. }
-      assert (Hs : pc s' t = TkInTerm).
-      { unfold s'. rewrite pc_same. reflexivity. }
-      assert (Hh : forall t0, is_hpc (pc s' t0) = true -> t0 = t).
-      { intros t0 H. destruct (Nat.eq_dec t0 t) as [|ne]; [assumption|].
-        rewrite Ho in H by exact ne. exact (i_huniq I _ _ H Hht). }
-      destruct I. constructor.
-      + change (tks_taken s = count is_begin_data ((t, TBegin DT) :: (t, TUp 0 UT) :: tks_tr s)).
-        rewrite !count_cons. cbn -[count]. exact i_taken0.
-      + exact i_le0.
-      + intros t0 _. exact (i_hmax0 _ Hht).
-      + intros t1 t2 H1 H2. apply Hh in H1, H2. congruence.
-      + change (count is_up_term ((t, TBegin DT) :: (t, TUp 0 UT) :: tks_tr s) = 1).
-        rewrite !count_cons. cbn -[count]. transitivity (S (b2n (tks_end s))); [f_equal; exact i_up0 | now rewrite Ee].
-      + change (count is_begin_term ((t, TBegin DT) :: (t, TUp 0 UT) :: tks_tr s) = 1).
-        rewrite !count_cons. cbn -[count]. transitivity (S (b2n (tks_end s))); [f_equal; exact i_bt0 | now rewrite Ee].
-      + reflexivity.
-      + intros _ _. left. reflexivity.
-      + intros t0 _. reflexivity.
-      + intros t0 H. exfalso. destruct (Nat.eq_dec t0 t) as [->|ne]; [congruence|].
-        rewrite Ho in H by exact ne.
-        assert (E : is_hpc (pc s t0) = true) by (rewrite H; reflexivity).
-        exact (ne (i_huniq0 _ _ E Hht)).
-      + intros t0. destruct (Nat.eq_dec t0 t) as [->|ne]; [congruence|].
-        rewrite Ho by exact ne. eauto.
-      + change (existsb is_panic ((t, TBegin DT) :: (t, TUp 0 UT) :: tks_tr s) = false).
-        cbn. assumption.
+      + apply inv_end_now; [exact I | rewrite Epc; reflexivity | exact Ee].
+    - (* TkAtEndStore: not reachable in the repaired code, same effect *)
+      apply inv_end_now; [exact I | rewrite Epc; reflexivity | exact (i_store I _ Epc)].
     - (* TkInTerm *)
       pose proof (i_term I _ Epc) as Ee.
       frame I t; rewrite ?Epc; next_cases true (tks_th s t); cbn; auto; discriminate.
